@@ -5,7 +5,9 @@
     exactly the item's own length; optional sections restored exactly when present; TxNormalize; the reader golib had
     for message steps (always expects attributes) is refuted by NoStuck (named deviation).
 (A) Trace_Profile: real WriteStep / ToBytesStep / ReadStep, service.ToBytes / ToObject, TxRecord.Write / Read and the
-    packs that carry a profile, on generated streams; carried set derived from the real writer.
+    packs that carry a profile, on generated streams; carried set derived from the real writer.  Generator `retain`:
+    several streams encoded before any is decoded, every output the code handed back (DataOutputX, the slice of
+    ToBytesStep / TxRecord.ToBytes, the pack of SetProfile) kept and looked at again later (Keep / Peek / Again).
     One TLC pass with Strict = TRUE (law + transcribed reference format: accepted there => accepted by the law alone);
     a trace rejected there is re-judged with Strict = FALSE (the verdict, with triage); rejected by the strict pass
     alone = stale transcription: exit 2 (spec_drift), never a violation."""
@@ -54,6 +56,47 @@ def judge(run, out, meta):
     run.extra["spec_drift"] = None
 
 
+def peek_selftest(run, out, meta):
+    """Binding demonstration for the kept outputs: a Peek that finds other bytes than were handed back, an Again that
+    finds another object than was handed back, and a history whose first Keep is missing must be rejected (the first
+    two exactly at the altered event)."""
+    from concurrent.futures import ThreadPoolExecutor
+    for job in meta.get("jobs", []):
+        lines = open(os.path.join(out, job["trace"])).read().splitlines()
+        cand = [h for h in vf.split_histories(lines) if json.loads(h[0]).get("gen") == "retain"]
+        if not cand:
+            continue
+        h = cand[0]
+        variants = []
+        for tag, ev, field in (("peek_other_bytes", "Peek", "bytes"), ("again_other_object", "Again", "r"), ("removed_keep", "Keep", "h")):
+            i = next((i for i in range(1, len(h)) if json.loads(h[i]).get("ev") == ev and json.loads(h[i]).get(field)), None)
+            if i is None:
+                raise vf.MachineryError("self-test: no %s event in the first history of gen retain" % ev)
+            e = json.loads(h[i])
+            if ev == "Peek":
+                e["bytes"] = e["bytes"][:-1] + [(e["bytes"][-1] + 1) % 256]
+            elif ev == "Again":
+                f = next(k for k in sorted(e["r"]) if e["r"][k]["k"] == "i")
+                e["r"][f]["v"] = e["r"][f]["v"][:-1] + [(e["r"][f]["v"][-1] + 1) % 256]
+            hh = h[:i] + ([json.dumps(e, separators=(",", ":"))] if ev != "Keep" else []) + h[i + 1:]
+            p = os.path.join(out, "_selftest_%s.ndjson" % tag)
+            open(p, "w").write("\n".join(hh) + "\n")
+            variants.append((tag, p, i + 1 if ev != "Keep" else None))
+        st = run.trace_states
+        with ThreadPoolExecutor(max_workers=3) as pool:
+            got = list(pool.map(lambda v: run.validate_file(job["spec"], v[1]), variants))
+        run.trace_states = st
+        res = {}
+        for (tag, p, at), (acc, hwm, n, r) in zip(variants, got):
+            res[tag + "_rejected"] = (not acc) and (at is None or hwm == at)
+        run.selftests[job["spec"] + ":retain"] = res
+        if not all(res.values()):
+            raise vf.MachineryError("binding self-test failed for the kept outputs: %s" % res)
+        vf.log("SELFTEST %s %s" % (job["spec"], res))
+        return
+    raise vf.MachineryError("self-test found no history of gen retain")
+
+
 def body(run):
     th = run.thorough()
     w = run.pick(4, 16)
@@ -61,12 +104,16 @@ def body(run):
     run.mc("MC_Profile", cfg="MC_Profile_abstract3.cfg", workers=w)
     run.mc("MC_Profile", cfg="MC_Profile_records_thorough.cfg" if th else "MC_Profile_records.cfg", workers=w)
     run.mc("MC_Profile", cfg="MC_Profile_asis_attr.cfg", expect_violation="NoStuck", workers=1)
+    run.mc("MC_Profile", cfg="MC_Profile_kept_thorough.cfg" if th else "MC_Profile_kept.cfg", workers=w)
+    run.mc("MC_Profile", cfg="MC_Profile_asis_pool.cfg", expect_violation="KeptIntact", workers=1)
     out, meta = run.drive("c08")
     run.absorb(meta)
     judge(run, out, meta)
     run.selftest(out, meta, gen="rand", field="cur")
     run.selftest(out, meta, gen="txopt", field="cur")
     run.selftest(out, meta, gen="registry", field="n")
+    if not run.violations:
+        peek_selftest(run, out, meta)
     run.assumptions += [
         "field values are projected by reflection and encoding/binary only (attribute / custom-field maps: the written side from the generator's shape, the read side through the map's public enumeration); the cursor is length - DataInputX.Available()",
         "the carried set of an item is derived from the real writer by changing one field at a time at that item's own field values; on top of it the law demands the fields of every optional section named by the property whenever the section's presence condition (spec operators) holds, and their defaults when it does not",
